@@ -91,6 +91,8 @@ def num_variants(c, tier):
     ~5 GB per instance); thorough adds the all-symbolic instance (both answers in one formula:
     ~500 s, ~20 GB)."""
     pick = ["req", "forb"] if c["nhdr"] != 1 else ["rev", "mid"]
+    if c["nhdr"] == 0:
+        pick = pick + ["rev"]  # the lightest entity with out-of-order ranges (quick tier of C06)
     if c["ir"] != "absent":
         pick = ["req"]
     out = [("_" + k, [255] * 6, NUMS[k]) for k in pick]
